@@ -140,7 +140,8 @@ fn pairs_of(r: &Reply, preceded: bool, ta: &str, tb: &str, ia: &HashMap<i64, usi
         if t0 != e0 || t1 != e1 {
             return Err(format!("rows {i},{} have types {t0},{t1}", i + 1));
         }
-        let (i0, i1) = (id[i].as_i64().ok_or("id not int")?, id[i + 1].as_i64().ok_or("id not int")?);
+        let bad = || format!("id not int: {}", r.raw.replace('\n', " "));
+        let (i0, i1) = (id[i].as_i64().ok_or_else(bad)?, id[i + 1].as_i64().ok_or_else(bad)?);
         let (ida, idb) = if preceded { (i1, i0) } else { (i0, i1) };
         out.push((*ia.get(&ida).ok_or("unknown a id")?, *ib.get(&idb).ok_or("unknown b id")?));
     }
@@ -193,6 +194,7 @@ impl Job {
         let pre_a = delivered(sess, ta, wh);
         let pre_b = delivered(sess, tb, wh);
         let rep = sess.cmd(&q);
+        let rep_again = sess.cmd(&q);
         let rep_unl = if limit.is_some() { sess.cmd(&self.query(false)) } else { None };
         let del_a = delivered(sess, ta, wh);
         let del_b = delivered(sess, tb, wh);
@@ -224,6 +226,14 @@ impl Job {
             }
         };
         j.pairs = pairs.len();
+        // the same query asked twice in a row must give the same answer for the exact comparison
+        let answer_stable = match &rep_again {
+            Some(rp) if rp.ok() => pairs_of(rp, preceded, ta, tb, &ia, &ib).ok().as_ref() == Some(&pairs),
+            _ => false,
+        };
+        if !answer_stable {
+            j.notes.push("answer-differs-between-two-identical-queries");
+        }
         // identical pair returned more than once: an a-event was delivered twice by its sub-query
         let dedup = |v: &Vec<(usize, usize)>| -> Vec<(usize, usize)> {
             let mut seen = BTreeSet::new();
@@ -292,7 +302,7 @@ impl Job {
         if !observed_ok {
             j.notes.push("delivered-rows-observation-inconsistent");
         }
-        let determined = self.ret.is_none() && !ties_in_group && ev.len() == n_ev && !has_dups && observed_ok && stable;
+        let determined = self.ret.is_none() && !ties_in_group && ev.len() == n_ev && !has_dups && observed_ok && stable && answer_stable;
         if determined {
             j.notes.push("compared-with-model");
             let order: Vec<String> = earliest.keys().cloned().collect();
@@ -358,6 +368,12 @@ pub fn run(a: &Args) {
         let mut r = Rng::for_case(a.seed, "e2e", i);
         if a.only.is_some_and(|o| o != i) {
             continue;
+        }
+        // debugging aid: `--from N` skips the cases before N (keeps the per-case seeds)
+        if let Some(p) = a.extra.iter().position(|x| x == "--from") {
+            if i < a.extra[p + 1].parse::<u64>().unwrap() {
+                continue;
+            }
         }
         if cur_block == u64::MAX {
             cur_block = i / BLOCK;
@@ -458,6 +474,9 @@ pub fn run(a: &Args) {
             (Some(_), true) => "return:omits-link-or-time",
         });
         s.tally(if racing { "mode:racing-with-flush" } else { "mode:flushes-settled" });
+        if std::env::var("C15_TRACE").is_ok() {
+            eprintln!("case {i} racing={racing}");
+        }
         s.tally_n("events", job.evs.len() as u64);
         s.tally_n("flush_commands", flushes);
         if job.evs.iter().any(|e| e.k.is_none()) {
@@ -468,14 +487,16 @@ pub fn run(a: &Args) {
             await_flush(&mut sess);
         }
         let mut j = job.ask_and_judge(&mut sess);
-        if racing && !j.failures.is_empty() {
-            // was it the flush in flight? ask again once everything has settled
+        if (racing && !j.failures.is_empty()) || j.failures.iter().any(|f| f.0 == "-") {
+            // was it background activity (flush in flight, compaction)? ask again on the unchanged
+            // data once everything has settled
             await_flush(&mut sess);
+            std::thread::sleep(std::time::Duration::from_millis(50));
             let j2 = job.ask_and_judge(&mut sess);
             if j2.failures.is_empty() {
                 for f in j.failures.iter_mut() {
                     if f.0 != "duplicate-pair" {
-                        f.0 = "in-flight-flush-visibility".into();
+                        f.0 = "transient-answer".into();
                     }
                 }
                 j.op = "skip".into();
@@ -484,6 +505,13 @@ pub fn run(a: &Args) {
             } else {
                 j = j2;
             }
+        }
+        if racing {
+            // a row can be momentarily invisible without making the answer wrong (a farther
+            // partner is chosen): the exact comparison is for settled engines only
+            j.op = "skip".into();
+            j.imp = "skip".into();
+            j.nontrivial = false;
         }
         if sess.dead {
             sess = Session::start(&root, &cfg);
